@@ -254,6 +254,18 @@ func register(rt *runtime.Runtime, c Cfg, invocations *int) error {
 	panic("flavour " + c.Flavour)
 }
 
+// RegisterFlavour registers the controller(s) of a flavour on rt (used by the free-running race pass).
+func RegisterFlavour(rt *runtime.Runtime, flavour string) error {
+	n := 0
+	return register(rt, Cfg{Flavour: flavour}, &n)
+}
+
+// APtr / BPtr are the pointers of input id / of the output derived from input id.
+func APtr(id string) resource.Pointer { return aPtr(id) }
+
+// BPtr see APtr.
+func BPtr(id string) resource.Pointer { return bPtr("out-" + id) }
+
 // Body runs one execution; prop selects which oracle's failures are reported ("C06" or "C07").
 func Body(c Cfg, prop string, x *explore.X) {
 	ctx, cancel := context.WithCancel(context.Background())
